@@ -60,6 +60,16 @@ type SeedRecSlice struct {
 	Kids []SeedRecSlice
 }
 
+type seedZeroSized struct {
+	A gen.SeedZeroArr   `struct:"a,omitempty"`
+	S gen.SeedZeroStr   `struct:"s,omitempty"`
+	L gen.SeedZeroSlice `struct:"l,omitempty"`
+	M gen.SeedZeroMap   `struct:"m,omitempty"`
+	I interface{}       `struct:"i,omitempty"`
+	P *gen.SeedZeroArr  `struct:"p,omitempty"`
+	Z int               `struct:"z"`
+}
+
 type seedFolderHolder struct {
 	A int
 	F gotype.Folder
@@ -343,6 +353,9 @@ func seeds() []seed {
 		{"SeedZeroV", []interface{}{SeedZeroV{}, SeedZeroV{1}}, nil, nil},
 		{"SeedRec", []interface{}{SeedRec{}, *rec(3), rec(2)}, nil, nil},
 		{"SeedRecSlice", []interface{}{SeedRecSlice{}, SeedRecSlice{Kids: []SeedRecSlice{{}, {Kids: []SeedRecSlice{{}}}}}}, nil, nil},
+		{"SeedZeroSized", []interface{}{seedZeroSized{}, seedZeroSized{A: gen.SeedZeroArr{0, 0, 0, 1}, S: "zero", L: gen.SeedZeroSlice{0, 5}, M: gen.SeedZeroMap{"a": 1}, I: gen.SeedZeroArr{}},
+			seedZeroSized{A: gen.SeedZeroArr{1}, S: "s", L: gen.SeedZeroSlice{5}, M: gen.SeedZeroMap{"x": 1}, I: gen.SeedZeroStr("zero"), P: &gen.SeedZeroArr{}},
+			seedZeroSized{I: gen.SeedZeroSlice{0}, P: &gen.SeedZeroArr{1}}}, nil, nil},
 		// fields, elements and map values whose STATIC type is an interface containing Fold: nil, a value, a nil pointer, a pointer
 		{"SeedFolderIfc", []interface{}{seedFolderHolder{A: 1}, seedFolderHolder{A: 1, F: SeedFolderV{2}}, seedFolderHolder{A: 1, F: (*SeedFolderV)(nil)}, seedFolderHolder{A: 1, F: &SeedFolderP{3}},
 			[]gotype.Folder{nil, SeedFolderV{1}, (*SeedFolderP)(nil)}, map[string]gotype.Folder{"k": nil}, map[string]gotype.Folder{"v": SeedFolderV{4}}, &seedFolderHolder{A: 2},
